@@ -1,6 +1,6 @@
 (* CollateRank.v — proofs about the model of rankValues (property C07, and the ranking half
    of C08): termination, independence of fuel and depth ("purity"), total preorder. *)
-From Verif Require Import Base Sorter Value SorterProofs CollateOrd CollateBase.
+From Verif Require Import Base Sorter Value SorterProofs CollateOrd CollateSort CollateBase.
 From Coq Require Import Permutation Sorted.
 Open Scope nat_scope.
 
@@ -265,4 +265,151 @@ Theorem rank0_terminates : forall M a b, rank0 M a b <> OutOfFuel.
 Proof.
   intros M a b. unfold rank0. apply rank_no_oof. unfold fuel_for.
   pose proof (wsz_le a). pose proof (wsz_le b). lia.
+Qed.
+
+(* ------------------------------------------------------------------ *)
+(* Purity: on the universe, the result is R of a pure function          *)
+(* ------------------------------------------------------------------ *)
+Definition pairr (r : val -> val -> comparison) (x y : val * val) : comparison :=
+  cthen (r (fst x) (fst y)) (r (snd x) (snd y)).
+Definition keyr (r : val -> val -> comparison) (x y : val * val) : comparison :=
+  r (fst x) (fst y).
+
+(* one step of the pure ranking, mirroring [spec] *)
+Definition pspec (r : val -> val -> comparison) (a b : val) : comparison :=
+  if negb (Z.eqb (tyrank a) (tyrank b)) then Z.compare (tyrank a) (tyrank b) else
+  match view_of a, view_of b with
+  | WLeaf, WLeaf => lrank a b
+  | WLeaf, _ => Lt
+  | _, WLeaf => Gt
+  | WAssoc k1 v1, WAssoc k2 v2 => cthen (r k1 k2) (r v1 v2)
+  | WArr xs, WArr ys => lexswap r xs ys
+  | WMap m1, WMap m2 =>
+      lexswap (pairr r) (sort_values (keyr r) m1) (sort_values (keyr r) m2)
+  | _, _ => Eq
+  end.
+
+Definition cross (a b : val) (x y : val) : Prop :=
+  (In x (elems a) /\ In y (elems b)) \/ (In x (elems b) /\ In y (elems a)).
+
+Lemma spec_pure : forall M d rec r a b,
+  wf0 a = true -> wf0 b = true -> nest a + d <= M -> nest b + d <= M ->
+  (forall d' x y, cross a b x y -> nest x + d' <= M -> nest y + d' <= M -> rec d' x y = R (r x y)) ->
+  (forall x y, is_leaf x = true -> is_leaf y = true -> rec d x y = R (r x y)) ->
+  spec M d rec a b = R (pspec r a b).
+Proof.
+  intros M d rec r a b Wa Wb Na Nb Hrec Hleaf. unfold spec, pspec.
+  destruct (negb (Z.eqb (tyrank a) (tyrank b))); [reflexivity|].
+  pose proof (view_nest a) as Sa. pose proof (view_nest b) as Sb.
+  pose proof (elems_nest a) as Ea. pose proof (elems_nest b) as Eb.
+  unfold cross, elems in *.
+  destruct (view_of a) eqn:Va, (view_of b) eqn:Vb; try reflexivity; simpl in Sa, Sb, Ea, Eb.
+  - (* associations *)
+    pose proof (Ea k ltac:(simpl; auto)). pose proof (Ea v ltac:(simpl; auto)).
+    pose proof (Eb k0 ltac:(simpl; auto)). pose proof (Eb v0 ltac:(simpl; auto)).
+    rewrite (Hrec d k k0), (Hrec d v v0); try lia; try (left; simpl; auto; fail).
+    apply rthen_R.
+  - (* arrays *)
+    replace (d =? M) with false by (symmetry; apply Nat.eqb_neq; lia).
+    apply rlexswap_pure. intros x y Hx Hy.
+    specialize (Ea x Hx). specialize (Eb y Hy).
+    split; apply Hrec; simpl; auto; lia.
+  - (* maps *)
+    replace (d =? M) with false by (symmetry; apply Nat.eqb_neq; lia).
+    rewrite (sort_ext _ (keyrk (rec d)) (keyr r) m).
+    2:{ intros x y Hx Hy. unfold keyrk, keyr. rewrite Hleaf; [reflexivity| |]; eapply (map_keys_leaf a); eauto. }
+    rewrite (sort_ext _ (keyrk (rec d)) (keyr r) m0).
+    2:{ intros x y Hx Hy. unfold keyrk, keyr. rewrite Hleaf; [reflexivity| |]; eapply (map_keys_leaf b); eauto. }
+    apply rlexswap_pure. intros p q Hp Hq. apply sorted_in in Hp, Hq.
+    assert (P1 : In (fst p) (map fst m ++ map snd m)) by (apply in_or_app; left; apply in_map; auto).
+    assert (P2 : In (snd p) (map fst m ++ map snd m)) by (apply in_or_app; right; apply in_map; auto).
+    assert (Q1 : In (fst q) (map fst m0 ++ map snd m0)) by (apply in_or_app; left; apply in_map; auto).
+    assert (Q2 : In (snd q) (map fst m0 ++ map snd m0)) by (apply in_or_app; right; apply in_map; auto).
+    pose proof (Ea _ P1). pose proof (Ea _ P2). pose proof (Eb _ Q1). pose proof (Eb _ Q2).
+    unfold pairrec, pairr. split.
+    + rewrite (Hrec (S d) (fst p) (fst q)), (Hrec (S d) (snd p) (snd q)); simpl; auto; try lia.
+      apply rthen_R.
+    + rewrite (Hrec (S d) (fst q) (fst p)), (Hrec (S d) (snd q) (snd p)); simpl; auto; try lia.
+      apply rthen_R.
+Qed.
+
+(* the pure ranking function: the model run with enough fuel and enough depth *)
+Definition prank (a b : val) : comparison :=
+  unres (rank (nest a + nest b) (fuel_for a b) 0 a b).
+
+Lemma lrank_ty : forall a b, negb (Z.eqb (tyrank a) (tyrank b)) = true ->
+  lrank a b = Z.compare (tyrank a) (tyrank b).
+Proof.
+  intros a b H. unfold lrank, lkey. simpl.
+  apply negb_true_iff, Z.eqb_neq in H.
+  destruct (Z.compare_spec (tyrank a) (tyrank b)); auto. contradiction.
+Qed.
+
+Lemma rank_leaf : forall M f d a b, is_leaf a = true -> is_leaf b = true ->
+  rank M (S f) d a b = R (lrank a b).
+Proof.
+  intros M f d a b La Lb. rewrite rank_unfold. unfold spec.
+  destruct (negb (Z.eqb (tyrank a) (tyrank b))) eqn:E.
+  - rewrite lrank_ty; auto.
+  - unfold is_leaf in *. destruct (view_of a), (view_of b); try discriminate. reflexivity.
+Qed.
+
+Lemma prank_leaf : forall a b, is_leaf a = true -> is_leaf b = true -> prank a b = lrank a b.
+Proof. intros a b La Lb. unfold prank, fuel_for. rewrite rank_leaf; auto. Qed.
+
+Lemma rank_pure_aux : forall n a b, wsz a + wsz b <= n ->
+  wf0 a = true -> wf0 b = true ->
+  (forall M d f, nest a + d <= M -> nest b + d <= M -> wsz a + wsz b < f ->
+     rank M f d a b = R (pspec prank a b)) /\
+  (forall M d f, nest a + d <= M -> nest b + d <= M -> wsz a + wsz b < f ->
+     rank M f d a b = R (prank a b)).
+Proof.
+  induction n as [|n IH]; intros a b Hn Wa Wb.
+  { pose proof (wsz_pos a). lia. }
+  assert (E : forall M d f, nest a + d <= M -> nest b + d <= M -> wsz a + wsz b < f ->
+     rank M f d a b = R (pspec prank a b)).
+  { intros M d f Na Nb Hf. destruct f as [|f]; [lia|].
+    rewrite rank_unfold. apply spec_pure; auto.
+    - intros d' x y Hc Nx Ny.
+      assert (wsz x + wsz y < f /\ wsz x + wsz y <= n /\ wf0 x = true /\ wf0 y = true) as (F1 & F2 & Wx & Wy).
+      { destruct Hc as [[Hx Hy]|[Hx Hy]];
+        pose proof (elems_size _ _ Hx); pose proof (elems_size _ _ Hy).
+        - repeat split; try lia; [apply (elems_wf0 a)|apply (elems_wf0 b)]; auto.
+        - repeat split; try lia; [apply (elems_wf0 b)|apply (elems_wf0 a)]; auto. }
+      destruct (IH x y F2 Wx Wy) as [_ H2]. apply H2; auto.
+    - intros x y Lx Ly. destruct f as [|f].
+      + pose proof (wsz_pos a). pose proof (wsz_pos b). lia.
+      + rewrite rank_leaf, prank_leaf; auto. }
+  split; auto.
+  intros M d f Na Nb Hf. rewrite E; auto. f_equal.
+  unfold prank. rewrite E; auto; try lia.
+  unfold fuel_for. pose proof (wsz_le a). pose proof (wsz_le b). lia.
+Qed.
+
+(* T1: within the depth limit and with the fuel of rank0 (or more), the model returns the
+   pure ranking: never OutOfFuel, never DepthPanic, independent of fuel, depth and maximum *)
+Theorem rank_pure : forall M f d a b, wf0 a = true -> wf0 b = true ->
+  nest a + d <= M -> nest b + d <= M -> fuel_for a b <= f ->
+  rank M f d a b = R (prank a b).
+Proof.
+  intros M f d a b Wa Wb Na Nb Hf.
+  destruct (rank_pure_aux _ a b (le_n _) Wa Wb) as [_ H]. apply H; auto.
+  unfold fuel_for in Hf. pose proof (wsz_le a). pose proof (wsz_le b). lia.
+Qed.
+
+Theorem rank0_pure : forall M a b, wf0 a = true -> wf0 b = true ->
+  nest a <= M -> nest b <= M -> rank0 M a b = R (prank a b).
+Proof. intros. unfold rank0. apply rank_pure; auto; lia. Qed.
+
+Lemma R_inj : forall x y : comparison, R x = R y -> x = y.
+Proof. intros x y H. injection H. auto. Qed.
+
+Lemma prank_eq : forall a b, wf0 a = true -> wf0 b = true -> prank a b = pspec prank a b.
+Proof.
+  intros a b Wa Wb.
+  destruct (rank_pure_aux _ a b (le_n _) Wa Wb) as [H1 H2].
+  assert (R (prank a b) = R (pspec prank a b)) as H.
+  { rewrite <- (H1 (nest a + nest b) 0 (fuel_for a b)), <- (H2 (nest a + nest b) 0 (fuel_for a b));
+    auto; try lia; unfold fuel_for; pose proof (wsz_le a); pose proof (wsz_le b); lia. }
+  exact (R_inj _ _ H).
 Qed.
